@@ -30,7 +30,7 @@ type c19Case struct {
 func init() {
 	engine.Register(&engine.Check{
 		ID: "C19", Level: "model_checking",
-		Rule: "decoder as a state machine: DFS over all line sequences of depth <=3 (quick) / <=4 (thorough) after each of 6 file openings (no A record, A first, noise then A, XOFF/BOM before A, ...), alphabet generated RELATIVE TO THE CURRENT STATE of a Go reference model of the record rules: H DTE {valid, short, non-digit, DATE: form, day/month edges, invalid day/month} and other H records, I records {contiguous LAD/LOD/TDS/other extension of width 1-3, two extensions, non-contiguous, stop<start, count larger than supplied, negative count, truncated, non-digit}, B records {valid at the current length, earlier time of day, one short, over-long, 60000 milli-minutes, 90/180 degrees, bad hemisphere, negative altitude}, blank and other records; after every sequence the real igc.Read result (fixes, headers, number and kind of errors) must equal the model's; plus every truncation and every single-column substitution (6 characters) of the B record in each of 6 extension states; the reader-split sweep; encoder round trip for every combination of 7 longitudes x 5 latitudes x 6 altitudes, 1..3 fixes with time deltas {0,1,59,86399,86400,86401} from 12 boundary instants, and EVERY calendar day 1970-01-01..2069-12-31 (quick: every 7th day + boundaries) with fixes at 00:00:00, 23:59:59 and across midnight. states = distinct model states reached",
+		Rule: "decoder as a state machine: DFS over all line sequences of depth <=3 (quick) / <=4 (thorough) after each of 6 file openings (no A record, A first, noise then A, XOFF/BOM before A, ...), alphabet generated RELATIVE TO THE CURRENT STATE of a Go reference model of the record rules: H DTE {valid, short, non-digit, DATE: form, day/month edges, invalid day/month} and other H records, I records {contiguous LAD/LOD/TDS/other extension of width 1-3, two extensions, non-contiguous, stop<start, count larger than supplied, negative count, truncated, non-digit}, B records {valid at the current length, earlier time of day, one short, over-long, 60000 milli-minutes, 90/180 degrees, bad hemisphere, negative altitude}, blank and other records; after every sequence the real igc.Read result (fixes, headers, number and kind of errors) must equal the model's; plus every truncation and every single-column substitution (6 characters) of the B record in each of 6 extension states; the reader-split sweep; encoder round trip for every combination of 7 longitudes x 5 latitudes x 6 altitudes, 1..3 fixes with time deltas {0,1,59,86399,86400,86401 s, 28,31,365,366,730 days} from 12 boundary instants, and EVERY calendar day 1970-01-01..2069-12-31 (quick: every 7th day + boundaries) with fixes at 00:00:00, 23:59:59 and across midnight. states = distinct model states reached",
 		Run:    c19Run,
 		Replay: func(c *engine.Ctx, kind string, raw json.RawMessage) { c19Exec(c, decodeCase[c19Case](raw), nil) },
 		Assumptions: []string{
@@ -328,7 +328,7 @@ func c19Run(c *engine.Ctx) {
 	lons := []float64{-180, -179.99999, -0.00001, 0, 0.5, 123.456789, 180}
 	lats := []float64{-90, -89.99999, 0, 45.5, 90}
 	alts := []float64{-5, 0, 1, 9999, 10000, 20000}
-	deltas := []float64{0, 1, 59, 86399, 86400, 86401}
+	deltas := []float64{0, 1, 59, 86399, 86400, 86401, 365 * 86400, 366 * 86400, 730 * 86400, 31 * 86400, 28 * 86400}
 	starts := []time.Time{
 		time.Date(1970, 1, 1, 0, 0, 0, 0, time.UTC), time.Date(1970, 1, 1, 23, 59, 59, 0, time.UTC), time.Date(1985, 7, 15, 11, 1, 1, 0, time.UTC),
 		time.Date(1999, 12, 31, 23, 59, 59, 0, time.UTC), time.Date(2000, 1, 1, 0, 0, 0, 0, time.UTC), time.Date(2000, 2, 28, 23, 59, 59, 0, time.UTC),
@@ -379,7 +379,19 @@ func c19Run(c *engine.Ctx) {
 		if d.Before(last) {
 			tr = append(tr, []ref.F{7.5002, 46.2502, 1002, ref.F(u + 86400)}) // across midnight
 		}
-		tracks = append(tracks, tr)
+		if u+366*86400 < windowEnd {
+			// the same calendar day (and the same day of the year) one year later
+			tr = append(tr, []ref.F{7.5003, 46.2503, 1003, ref.F(float64(d.AddDate(1, 0, 0).Unix()) + 3600)})
+			tr = append(tr, []ref.F{7.5004, 46.2504, 1004, ref.F(float64(time.Date(d.Year()+2, 1, 1, 0, 0, 0, 0, time.UTC).AddDate(0, 0, d.YearDay()-1).Unix()) + 7200)})
+		}
+		// keep only fixes inside the two-digit year window
+		var kept [][]ref.F
+		for _, f := range tr {
+			if float64(f[3]) < windowEnd {
+				kept = append(kept, f)
+			}
+		}
+		tracks = append(tracks, kept)
 	}
 	c.Note("tracks", len(tracks))
 	c.Parallel(len(tracks), func(i int) { c19Exec(c, c19Case{Mode: "track", Track: tracks[i]}, nil) })
